@@ -718,6 +718,39 @@ def run_deferplan_case(item):
             "project": project.to_json() if diffs else None}
 
 
+def run_detached_input_scenario() -> dict:
+    """Directed second build: ./sub.py (changed) is executed again and re-defines the UNCHANGED producer
+    `w` of w.out (recycled, not run: w.out stays BUILT and only changes from detached to attached), while
+    the changed worker ./use.py amends w.out.  -j1: the two never overlap.  -j2 with the worker's request
+    AND completion arriving after the sub-plan was dispatched (reset_for_rerun detached w.out) and before
+    it defined `w` again: the worker is refused the detached input and has to be run once more after
+    the re-definition.  Whatever parks the worker (deferred flag, pending bookkeeping) must be undone by
+    the re-attachment, which is no change of a file STATE.  Both schedules must end alike."""
+    plan = [{"op": "static", "paths": ["sub.py", "use.py"]}, {"op": "plan", "label": "./sub.py"},
+            {"op": "run", "label": "./use.py", "out": ["u.out"]}]
+    sub = [{"op": "run", "label": "w", "shell": True, "out": ["w.out"]}]
+    use = [{"op": "amend", "inp": ["w.out"]}, {"op": "read", "paths": ["w.out"]}, {"op": "write", "path": "u.out"}]
+    p = e3.Project(sources={}, program={"scripts": {"plan.py": plan, "sub.py": sub, "use.py": use},
+                                        "commands": {"w": [{"op": "auto"}]}})
+    edit = [{"op": "script", "path": f, "actions": [{"op": "print", "text": "second version"}] + a}
+            for f, a in (("sub.py", sub), ("use.py", use))]
+    both = dict(policy="fifo", points=["start", "end"])
+    out = {"project": p.to_json(), "edit": edit}
+    for name, kw in (("j1", dict(njob=1)),
+                     ("j2-worker-first", dict(njob=2, schedule=dict(both, order=["start:./use.py", "end:./use.py",
+                                                                                  "start:./sub.py", "end:./sub.py"]))),
+                     ("j2-sub-first", dict(njob=2, schedule=dict(both, order=["start:./sub.py", "end:./sub.py",
+                                                                               "start:./use.py", "end:./use.py"])))):
+        rs = e3.run_history(p, [{"edits": edit, "build": kw}])
+        r = rs[-1]
+        out[name] = {"first": e3.rc_class(rs[0].returncode), "cls": e3.rc_class(r.returncode),
+                     "rejected": [list(x) for x in r.rejected],
+                     "graph": e3.canon_graph(r.graph, digests=True) if r.graph else None,
+                     "runs_of_worker": sum(1 for c in r.commands if c["label"] == "./use.py"),
+                     "gate_releases": [t[0] for t in r.schedule_trace]}
+    return out
+
+
 def run_detached_issuer_scenario() -> dict:
     """Directed, from scratch, ONE build (finding C02:noncommute:detached-issuer).  ./sub.py defines the
     workers ./a0.py and ./a1.py and is deferred by amend(inp=f.txt); both workers declare the source
